@@ -17,8 +17,6 @@ PANIC_TABLE = {
     "eval::builtin::round": ("integrality", "debug_assert!(integral result) - discharged by the integrality facts of C10-R6"),
     "eval::builtin::floor": ("integrality", "debug_assert!(integral result) - discharged by C10-R6"),
     "eval::builtin::ceil": ("integrality", "debug_assert!(integral result) - discharged by C10-R6"),
-    "rational::display::emit::{closure#0}": ("frozen", "debug_assert!(digit < 10) in the long-division digit emitter: rem < den on entry is the loop "
-                                                      "invariant of long division (frozen, commented exception; C08 territory)"),
 }
 # divisions by something that is not a literal non-zero constant, with the reason they cannot divide by zero
 DIV_TABLE = {
@@ -27,9 +25,6 @@ DIV_TABLE = {
     ("eval::builtin::round", "div_assign"): ("pow10", "divisor is Rational::new(10, 1).pow(n), a power of a non-zero constant"),
     ("compound::Compound::factor", "div_assign"): ("pow10", "divisor is Rational::new(10, 1).pow(prefix * power)"),
     ("<rational::Rational as std::str::FromStr>::from_str", "div_assign"): ("pow10", "divisor is BigInt::from(10).pow(..)"),
-    ("<rational::display::Display<'_> as std::fmt::Display>::fmt", "div"): ("frozen", "formatter: divides by the (non-zero) denominator of a BigRational (C08 territory)"),
-    ("rational::display::digits", "div_assign"): ("frozen", "formatter: divides a BigInt by the constant 10 while counting digits"),
-    ("rational::display::emit::{closure#0}", "div"): ("frozen", "formatter: long division by the non-zero denominator"),
 }
 ASSERT_EXCEPTIONS = {
     ("prefix::Prefix::find", "BoundsCheck"): "index is the result of binary_search_by over the 21-entry table (Ok(n): n < 21; Err(n): n <= 21 and "
@@ -63,6 +58,9 @@ def r1_census(facts, rep, fx):
     rep.floor("C11-R1", "reachable hand-written functions", len(hw), 60)
     deps = {}
     pow_own = cg.exclusive("eval::pow")
+    fmt_own = cg.exclusive("<rational::display::Display<'_> as std::fmt::Display>::fmt")
+    from . import c08 as _c08
+    gen_code = _c08.generator_code_paths(facts)
 
     def dep(name):
         if name in deps:
@@ -110,6 +108,10 @@ def r1_census(facts, rep, fx):
             if kind == "panic":
                 macros = "/".join(m.split("::")[-1] for m in sp["macros"])
                 ent = PANIC_TABLE.get(p)
+                if ent is None and p in gen_code:
+                    ent = ("frozen", "debug_assert!(digit < 10) in the long-division digit generator (found by role, C08-R1 analyses it): "
+                                     "rem < den on entry is the invariant of long division; C08-R1 shows the panic sits only behind the "
+                                     "failed digit-range test")
                 if ent is None:
                     okk, why = auto_discharge(facts, b, site)
                     rep.ob("C11-R1", "panic:%s" % p, okk, ("%s: %s" % (macros or name, why)) if okk else
@@ -137,6 +139,10 @@ def r1_census(facts, rep, fx):
                     rep.ob("C11-R1", "div-wrapper:%s" % p, True, "operator wrapper (its call sites are checked)", site, nontrivial=False)
                     continue
                 ent = DIV_TABLE.get((p, m))
+                if ent is None and p in fmt_own:
+                    # whatever the formatter's functions are called: its divisions are by ten (digit count) and by the
+                    # denominator (split, generator), decided by C08-R1/R2/R3
+                    ent = ("frozen", "decimal formatter (a function only the formatter uses): divides by ten or by the non-zero denominator (C08-R1/R2/R3)")
                 if ent is None:
                     okk, what = divisor_nonzero(facts, b, t)
                     if not okk:
@@ -171,6 +177,8 @@ def r1_census(facts, rep, fx):
             else:
                 rep.ob("C11-R1", "assert:%s:%s" % (p, m), exc is not None, "compiler-inserted %s in %s%s" % (m, p, ": " + exc if exc else " is not in the exception table"),
                        b.site(sp), nontrivial=False)
+    from . import c11_sub
+    n_sites += c11_sub.check(facts, rep, {p: cg.local[p] for p in hw if not cg.local[p].from_derive()})
     rep.count("panicking sites inspected", n_sites)
     rep.count("arithmetic-overflow assertions (listed, not discharged)", overflow)
     rep.floor("C11-R1", "panicking sites", n_sites, 35 if facts.crates["anything"].get("overflow_checks") else 15)
@@ -416,6 +424,15 @@ def run(fx, rep, tier):
             c12.r6_loops(facts, s3, _chars.atoms(consts, preds))
             for o in s3.obls:
                 o["rule"] = "C11-R3"
+                sub.obls.append(o)
+        if cfg == "dev":
+            sub.rule("C11-R4", "error spans are in the caller's coordinates: parse() hands the parser the very text it keeps and "
+                               "reports against (shared with C12-R9)")
+            from . import c12 as _c12
+            s4 = type(rep)(rep.prop, rep.tier)
+            _c12.r9_same_text(facts, s4)
+            for o in s4.obls:
+                o["rule"] = "C11-R4"
                 sub.obls.append(o)
         if sub is not rep:
             for o in sub.obls:
